@@ -61,7 +61,7 @@ func runC02(c *Ctx, r *Report) {
 	importFoundation(c, r, "C02", "netconf-version")
 	r.Rule("C02/mark-failed", "recordFailed stores a non-nil Failed on every path on which one of the response's failure markers was found in the bytes it was given", 1)
 	checkNetconfMarkFailed(c, r, "C02/mark-failed")
-	r.Rule("C02/bounds", "every index/slice of the decoder satisfies 0<=i<len / 0<=lo<=hi<=len (len, not cap) on every path", 20)
+	r.Rule("C02/bounds", "every index/slice of the decoder satisfies 0<=i<len / 0<=lo<=hi<=len (len, not cap) on every path", 8)
 	r.Rule("C02/conv-checked", "every strconv conversion error is tested and leads to an error return", 1)
 	r.Rule("C02/failed-on-parse-error", "every error of the chunk parser stores a non-nil OperationError in Failed", 1)
 	r.Rule("C02/terminator-required", "the chunk parser's success return is reachable only through the end-of-chunks detection", 1)
